@@ -329,3 +329,36 @@ Proof.
   unfold qmm. cbv zeta. apply nth_nth_map_Qeq. intros r. rewrite map_map.
   apply nth_map_Qeq. intros c. apply qdot_is_dot.
 Qed.
+
+(* ---------------- what a passed EXACT cell establishes ---------------- *)
+Lemma ql_eqb_nth (x y : Qvec) : ql_eqb x y = true -> forall j, nth j x 0 == nth j y 0.
+Proof.
+  unfold ql_eqb. revert y. induction x as [|a x IH]; intros [|b y] H j; cbn [list_eqb] in H; try discriminate.
+  - reflexivity.
+  - apply andb_true_iff in H as [H1 H2]. destruct j; cbn [nth]; [apply Qeq_bool_iff; exact H1 | apply IH; exact H2].
+Qed.
+
+Lemma qll_eqb_nth (A B : Qmat) : qll_eqb A B = true -> forall i j, nth j (nth i A []) 0 == nth j (nth i B []) 0.
+Proof.
+  unfold qll_eqb. revert B. induction A as [|r A IH]; intros [|s B] H i j; cbn [list_eqb] in H; try discriminate.
+  - reflexivity.
+  - apply andb_true_iff in H as [H1 H2]. destruct i; cbn [nth]; [apply ql_eqb_nth; exact H1 | apply IH; exact H2].
+Qed.
+
+(* if the model accepts an exact cell, then -- as a statement about textbook sums, not about the optimised arithmetic --
+   every entry of S T and of T S equals the corresponding entry of the identity, and the offset is the (broadcast) mean:
+   these are exactly the hypotheses of C05_list_gaussian_cov / C05_gaussian_cov, with == on Q in place of = in a field *)
+Definition textbook_mm (A B : Qmat) : Qmat := map (fun r => map (fun c => qdot_ref r c) (qtr B)) A.
+
+Theorem exact_cell_sound mean S off T : check_gauss_exact mean S off T = true ->
+  (forall i j, nth j (nth i (textbook_mm S T) []) 0 == nth j (nth i (qid (length S)) []) 0) /\
+  (forall i j, nth j (nth i (textbook_mm T S) []) 0 == nth j (nth i (qid (length S)) []) 0) /\
+  (forall j, nth j off 0 == nth j (bmean (length S) mean) 0).
+Proof.
+  unfold check_gauss_exact. intros H.
+  repeat (apply andb_true_iff in H; destruct H as [H ?]).
+  repeat split.
+  - intros i j. unfold textbook_mm. rewrite <- qmm_entry. apply qll_eqb_nth. assumption.
+  - intros i j. unfold textbook_mm. rewrite <- qmm_entry. apply qll_eqb_nth. assumption.
+  - apply ql_eqb_nth. assumption.
+Qed.
